@@ -167,10 +167,11 @@ Fixpoint all_space (l : bytes) : bool :=
 Definition max_whitespace : nat := 1024.
 
 (** bytes.TrimSuffix(line, "\r") after the LF has been removed *)
-Definition strip_cr (l : bytes) : bytes :=
-  match rev l with
-  | c :: r => if Byte.eqb c CR then rev r else l
-  | [] => l
+Fixpoint strip_cr (l : bytes) : bytes :=
+  match l with
+  | [] => []
+  | [c] => if Byte.eqb c CR then [] else [c]
+  | x :: r => x :: strip_cr r
   end.
 
 (** The input as the reader sees it: [ls] = the text split at LF (so the last
